@@ -11,7 +11,7 @@ import (
 
 func init() {
 	register("C08", propMeta{
-		Explanation: "E-GUARD + E-CONST + E-PANIC. O-1 stripping dominates every export: the description serialised in BrokerChannel.Negotiate and SignalingServer.sendAnswer is, on every path not behind the true edge of the respective keepLocalAddresses flag, a fresh description whose SDP is util.StripLocalAddresses of the original; probetest strips unconditionally; the flag fields are written only from the configuration. O-2 range table = RFC table: util.IsLocal is read as a disjunction of conjunctions of byte tests (b[k] == c, b[k] & m == c) over ip.To4() and the 16-byte ip; each true path is converted syntactically to a CIDR prefix and the resulting set is compared with {10/8, 172.16/12, 192.168/16, 100.64/10, 169.254/16, fc00::/7}. O-3 filter shape: in the candidate loop of StripLocalAddresses the skip is reachable only through IsICECandidate, a successful UnmarshalCandidate, Type() == host, ParseIP != nil and one of IsLocal/IsUnspecified/IsLoopback (all three occur); every other path appends the loop's attribute; each media section gets a slice made inside its own iteration; parse/marshal errors return the input unchanged. O-4 no termination construct reachable from StripLocalAddresses/IsLocal, and every constant index into an address is behind an edge that establishes its length (To4() != nil, len(ip) == 16). O-2 is evaluated exactly since the second seeding round: byte tests including < and <= ranges become value sets, each feasible true path a product of per-byte sets, and the union is compared with the table over all 65536 leading IPv4 byte pairs and 256 leading IPv6 bytes. Added after the third seeding round: ice.UnmarshalCandidate receives the attribute value itself (no trimming or re-formatting); the caller's string is returned only on error edges, never as a 'nothing removed' shortcut decided per media section.",
+		Explanation: "E-GUARD + E-CONST + E-PANIC. O-1 stripping dominates every export: the description serialised in BrokerChannel.Negotiate and SignalingServer.sendAnswer is, on every path not behind the true edge of the respective keepLocalAddresses flag, a fresh description whose SDP is util.StripLocalAddresses of the original; probetest strips unconditionally; the flag fields are written only from the configuration. O-2 range table = RFC table: util.IsLocal is read as a disjunction of conjunctions of byte tests (b[k] == c, b[k] & m == c) over ip.To4() and the 16-byte ip; each true path is converted syntactically to a CIDR prefix and the resulting set is compared with {10/8, 172.16/12, 192.168/16, 100.64/10, 169.254/16, fc00::/7}. O-3 filter shape: in the candidate loop of StripLocalAddresses the skip is reachable only through IsICECandidate, a successful UnmarshalCandidate, Type() == host, ParseIP != nil and one of IsLocal/IsUnspecified/IsLoopback (all three occur); every other path appends the loop's attribute; each media section gets a slice made inside its own iteration; parse/marshal errors return the input unchanged. O-4 no termination construct reachable from StripLocalAddresses/IsLocal, and every constant index into an address is behind an edge that establishes its length (To4() != nil, len(ip) == 16). O-2 is evaluated exactly since the second seeding round: byte tests including < and <= ranges become value sets, each feasible true path a product of per-byte sets, and the union is compared with the table over all 65536 leading IPv4 byte pairs and 256 leading IPv6 bytes. Added after the third seeding round: ice.UnmarshalCandidate receives the attribute value itself (no trimming or re-formatting); the caller's string is returned only on error edges, never as a 'nothing removed' shortcut decided per media section. Added after the fifth seeding round: IsLocal consulting a library predicate whose range reaches beyond the table (IsLinkLocalUnicast: fe80::/10, multicast, global unicast) is a violation.",
 		NotDecided:  "pion/sdp and pion/ice parsing and re-marshalling fidelity ('every other field preserved') - third-party; IPv4-mapped spellings (handled by To4, stdlib).",
 		Assumptions: []string{"net.IP.To4 returns nil or a 4-byte slice", "third-party SDP/ICE code does not panic"},
 	}, runC08)
@@ -342,6 +342,7 @@ func (c *Ctx) checkIsLocalTable(fn *ssa.Function) {
 	}
 	var trues []pathRes
 	undec := ""
+	libViol := ""
 	var to4 ssa.Value
 	for _, ci := range callsTo(fn, "(net.IP).To4") {
 		to4 = ci.(*ssa.Call)
@@ -437,6 +438,14 @@ func (c *Ctx) checkIsLocalTable(fn *ssa.Function) {
 				}
 			}
 			undec = "IsLocal branches on a condition that is not a byte test, a nil test or len(ip) == 16: " + t.Cond.String()
+			// a library classification whose range is known to reach beyond the table (IPv6 link-local, multicast,
+			// global unicast) is a violation, not merely an unrecognised shape
+			if cc, _, okc := callResult(t.Cond); okc {
+				switch calleeName(cc) {
+				case "(net.IP).IsLinkLocalUnicast", "(net.IP).IsLinkLocalMulticast", "(net.IP).IsGlobalUnicast", "(net.IP).IsMulticast", "(net.IP).IsInterfaceLocalMulticast":
+					libViol = calleeName(cc)
+				}
+			}
 		default:
 			for _, s := range b.Succs {
 				dfs(s, b, atoms, v6len, seen)
@@ -444,6 +453,10 @@ func (c *Ctx) checkIsLocalTable(fn *ssa.Function) {
 		}
 	}
 	dfs(fn.Blocks[0], nil, nil, false, map[*ssa.BasicBlock]bool{})
+	if libViol != "" {
+		c.viol(rule, "util.IsLocal decides by the RFC ranges", p.Pos(fn.Pos()), "IsLocal consults "+libViol+", whose range (IPv6 link-local fe80::/10, multicast ...) is not in the table of local ranges: candidates the property says must be kept are stripped")
+		return
+	}
 	if undec != "" {
 		c.undecided(rule, "util.IsLocal is a disjunction of byte tests", p.Pos(fn.Pos()), undec+": a new recogniser is needed")
 		return
